@@ -110,11 +110,8 @@ func c11ReadErrors(r *Run) {
 		}
 	}
 
-	// named exceptions (one symbol each, with the reason)
-	exceptions := map[string]string{
-		"(" + strings.TrimPrefix(pkgSetting, repoMod+"/") + ".Reconciler).Reconcile|List(ExtendedDaemonsetSettingList)": "status-only reconciler: on a failed settings list it rewrites its previous verdict (Error cleared) and stops; nothing else is computed from the missing list and no pod is touched",
-		"(" + strings.TrimPrefix(pkgSetting, repoMod+"/") + ".Reconciler).Reconcile|List(NodeList)":                     "the failure is recorded in the setting's own status (Status=error, Error=\"unable to get nodes…\"), which is this reconciler's only output",
-	}
+	// named exception (one symbol, with the reason): the settings reconciler's own list of settings
+	settingsListReason := "status-only reconciler: on a failed settings list it rewrites its previous verdict (Error cleared) and stops; nothing else is computed from the missing list and no pod is touched"
 
 	for _, fn := range sortedFuncs(reach) {
 		var ff *FuncFacts
@@ -136,13 +133,19 @@ func c11ReadErrors(r *Run) {
 				r.Check("C11.R5", construct, pos, shortFunc(fn), "the error result of an API read is not discarded", false, "error result is dropped")
 				continue
 			}
-			if reason, ok := exceptions[shortFunc(fn)+"|"+what]; ok {
-				o := r.Check("C11.R5", construct, pos, shortFunc(fn), "named exception", true, reason)
+			if fn.Pkg != nil && fn.Pkg.Pkg.Path() == pkgSetting && what == "List(ExtendedDaemonsetSettingList)" {
+				o := r.Check("C11.R5", construct, pos, shortFunc(fn), "named exception", true, settingsListReason)
 				o.Trivial = true
 				continue
 			}
 			if ff == nil {
 				ff = computeFacts(fn)
+			}
+			// the failure is recorded in a status the function writes: a store to an `Error` field whose
+			// value depends on the error, in a block reached only with the error set
+			if c11RecordedInStatus(fn, ff, ev) {
+				r.Check("C11.R5", construct, pos, shortFunc(fn), "when the read fails the failure is recorded in the object's status (Error field built from the error)", true, "")
+				continue
 			}
 			idx := errorResultIndex(fn)
 			if idx < 0 {
@@ -332,4 +335,30 @@ func c11SelfClearingGuards(r *Run) {
 	o := r.Check("C11.R7", "self-clearing guards", r.Prog.Pos(apply.Pos()), shortFunc(apply),
 		"no write of any role is guarded by a condition that role resets", true, fmt.Sprintf("%d role dispatches examined, %d offending guards", len(roles), n))
 	o.Trivial = true
+}
+
+// c11RecordedInStatus: under the fact ev != nil some store writes a value depending on ev into a
+// field named Error (the settings reconciler reports a failed node list through its own status).
+func c11RecordedInStatus(fn *ssa.Function, ff *FuncFacts, ev ssa.Value) bool {
+	for _, b := range fn.Blocks {
+		for _, in := range b.Instrs {
+			st, ok := in.(*ssa.Store)
+			if !ok {
+				continue
+			}
+			fa, ok := st.Addr.(*ssa.FieldAddr)
+			if !ok || fieldName(fa) != "Error" {
+				continue
+			}
+			if !dependsOnV(st.Val, func(v ssa.Value) bool { return v == ev }) {
+				continue
+			}
+			if ff.Holds(b, false, func(v ssa.Value, _ string) bool {
+				return isNilCompareOf(v, func(x ssa.Value) bool { return x == ev })
+			}) {
+				return true
+			}
+		}
+	}
+	return false
 }
